@@ -66,6 +66,7 @@ type FuncContract struct {
 	File       string
 	Line       int
 	RecvGhosts []RecvGhost
+	Assumes    []*Clause          // entry assumptions not checked at call sites (trusted type invariants)
 	Recvs      map[string]*Clause // channel text -> assumed invariant of received values (trusted)
 	Uses       map[string]bool    // when non-nil: only the postconditions of these callees are assumed (others: results and write sets only)
 	MaxPaths   int                // live symbolic paths kept apart before joining (default 4)
@@ -126,7 +127,7 @@ var labelRe = regexp.MustCompile(`^\[([A-Za-z0-9_.]+)\]\s*`)
 var propsRe = regexp.MustCompile(`^@([A-Z0-9,]+)\s+`)
 
 var clauseKeywords = map[string]bool{
-	"func": true, "iface": true, "fieldfunc": true, "spec": true, "lemma": true, "axiom": true, "modset": true, "requires": true, "ensures": true, "modifies": true, "loop": true,
+	"func": true, "iface": true, "fieldfunc": true, "spec": true, "lemma": true, "axiom": true, "modset": true, "requires": true, "assumes": true, "ensures": true, "modifies": true, "loop": true,
 	"invariant": true, "decreases": true, "trusted": true, "props": true, "ghost": true, "at": true, "after": true, "recv": true,
 	"pure": true, "nopanic": true, "paths": true, "forget": true, "uses": true, "replay": true, "bounded": true, "skip": true, "note": true,
 }
@@ -305,7 +306,7 @@ func (cs *ContractSet) ParseContractFile(pkgPath, filename string, f *ast.File, 
 						cur.Modifies = append(cur.Modifies, cl)
 					}
 				}
-			case "requires", "ensures", "invariant", "decreases":
+			case "requires", "assumes", "ensures", "invariant", "decreases":
 				cl, err := mk(rest)
 				if err != nil {
 					return err
@@ -313,6 +314,10 @@ func (cs *ContractSet) ParseContractFile(pkgPath, filename string, f *ast.File, 
 				switch kw {
 				case "requires":
 					cur.Requires = append(cur.Requires, cl)
+				case "assumes":
+					// assumed at entry, not imposed on callers: a (trusted) data-structure invariant of values
+					// whose fields are private to the package
+					cur.Assumes = append(cur.Assumes, cl)
 				case "ensures":
 					cur.Ensures = append(cur.Ensures, cl)
 				case "invariant":
